@@ -1,2 +1,10 @@
 -- all property theorem files (imported by the axiom audit and the default build target)
 import CoolerModel.Props.C20
+import CoolerModel.Props.C15
+import CoolerModel.Props.C03
+import CoolerModel.Props.C12
+import CoolerModel.Props.C19
+import CoolerModel.Props.C18
+import CoolerModel.Props.C14
+import CoolerModel.Props.C10
+import CoolerModel.Props.C11
